@@ -22,3 +22,5 @@ for sid in seeds:
     finally:
         subprocess.run(['git', '-C', '/repo', 'checkout', '--', '.'], check=True)
     json.dump(meta, open(os.path.join(d, 'meta.json'), 'w'), indent=1)
+# the checks regenerated lean/FlexVerif/Gen/*.lean from the changed trees: put back those of the clean tree
+subprocess.run([sys.executable, os.path.join(os.path.dirname(os.path.abspath(__file__)), 'regen_all.py')], check=False)
